@@ -75,6 +75,11 @@ def check(model: Model, run: Run) -> None:
     if _rf is None:
         raise AnalysisError("LDAPSession.receive not found")
     residue_discipline(model, run, ex, _rf)
+    # "as an equal value": what the application hands to a request method is what goes on the wire, not a default that
+    # replaced it because it happened to be falsy
+    from .c05 import may_raise
+    from .c06 import truth_of_package_values
+    truth_of_package_values(model, run, may_raise(model), "A6-arguments-not-replaced-by-truth", "replaced by the default before it is sent")
 
     def sasl_send(flag):
         def f(p, e, o):
